@@ -386,7 +386,7 @@ func zzGGenBlock(depth, maxDepth int, lens []int, inLoop bool, ctr *int, locals 
 		last := i == n-1
 		kinds := []string{"acc", "decl"}
 		if len(locals) > 0 {
-			kinds = append(kinds, "use")
+			kinds = append(kinds, "use", "use2")
 		}
 		if depth < maxDepth {
 			kinds = append(kinds, "if", "ifelse", "while", "fornum", "forarr")
@@ -399,7 +399,7 @@ func zzGGenBlock(depth, maxDepth int, lens []int, inLoop bool, ctr *int, locals 
 		switch st.kind {
 		case "decl":
 			locals = append(locals, "v"+strconv.Itoa(st.k))
-		case "use":
+		case "use", "use2":
 			st.cond = locals[zzChoice("glocal", len(locals))]
 		case "if", "ifelse":
 			st.cond = []string{"a < b", "t > 20", "a == a"}[zzChoice("gcond", 3)]
@@ -427,6 +427,8 @@ func zzGRender(sb *strings.Builder, sts []*zzGSt, ind int) {
 			sb.WriteString(pad + "v" + k + " := a + t + " + k + "\n" + pad + "t = t + v" + k + "\n")
 		case "use":
 			sb.WriteString(pad + "t = t * 2 + " + st.cond + " * 5 - (" + st.cond + " + 1)\n")
+		case "use2": // the local is the first operand and is read again afterwards
+			sb.WriteString(pad + "t = " + st.cond + " * 7 + t\n" + pad + "t = " + st.cond + " - t\n")
 		case "break":
 			sb.WriteString(pad + "break\n")
 		case "if":
